@@ -165,6 +165,30 @@ def handleKernel (line : String) : Option String :=
       match w.toNat?, n.toNat?, nats p, wordsOf x with
       | some w, some n, some p, some x => some (showWords (Codec.permuteBits p w n (Codec.encLen w n) x))
       | _, _, _, _ => some "ERR parse"
+    | ["mat.apply", b, n, m], [M, S] =>
+      match b.toNat?, n.toNat?, m.toNat?, nats M, nats S with
+      | some B, some n, some m, some M, some S => some (showNats (Matrix.apply B n m M S))
+      | _, _, _, _, _ => some "ERR parse"
+    | ["mat.isinverse", b, n], [A, C] =>
+      match b.toNat?, n.toNat?, nats A, nats C with
+      | some B, some n, some A, some C => some (if Matrix.isInverse B n A C then "1" else "0")
+      | _, _, _, _ => some "ERR parse"
+    | ["permute"], [p, st] =>
+      match nats p, nats st with
+      | some p, some st => some (showNats (permuteList p st))
+      | _, _ => some "ERR parse"
+    | ["uniq.idx"], [hs] =>
+      (ints hs).map fun hs =>
+        let a := hs.toArray
+        showNats (uniqueStates (fun i => a.getD i 0) (List.range hs.length))
+    | ["isin"], [hay, vs] =>
+      match ints hay, ints vs with
+      | some hay, some vs => some (showNats (vs.map fun v => if isinSorted hay v then 1 else 0))
+      | _, _ => some "ERR parse"
+    | ["tsplit", k], [xs] =>
+      match k.toNat?, nats xs with
+      | some k, some xs => some (showLL (tensorSplit k xs))
+      | _, _ => some "ERR parse"
     | ["hash.mix"], [x] => (wordsOf x).map fun l => showInts (l.map fun w => Hash.key (Hash.evalMix Gen.mixSteps w))
     | ["hash.comb", seed], rows =>
       match seed.toInt?, rows.mapM wordsOf with
